@@ -391,6 +391,11 @@ fn kind(e: &JwtValidationError) -> &'static str {
   e.into()
 }
 
+/// The token's issuance is spelled as `serialize_jwt` spells it: in `nbf` only (or not at all).
+fn plain_spelling(case: &Case) -> bool {
+  case.iat == DateClaim::Absent
+}
+
 pub fn check(case: &Case, obs: &mut Obs) -> CheckResult {
   // ---- fixtures ------------------------------------------------------------------------------
   let universe = Universe::new(case.family as u64);
@@ -577,7 +582,7 @@ pub fn check(case: &Case, obs: &mut Obs) -> CheckResult {
     Ok(decoded) => {
       let decoded: DecodedJwtPresentation<Value, Object> = decoded;
       obs.label("accepted");
-      if all_true {
+      if all_true && plain_spelling(case) {
         obs.label("all-true-accepted");
       }
       // accepted => every condition holds
@@ -676,8 +681,9 @@ pub fn check(case: &Case, obs: &mut Obs) -> CheckResult {
         obs.label(format!("err:{}", kind(k)));
       }
       if all_true {
-        // not a violation (one-directional statement); the share is guarded in `run`
-        obs.label("all-true-rejected");
+        // not a violation (one-directional statement); the share is guarded in `run` — over tokens spelled the way
+        // the library itself spells them (a verifier may refuse a redundant `iat` or other foreign spellings)
+        obs.label(if plain_spelling(case) { "all-true-rejected" } else { "all-true-foreign-spelling-rejected" });
       }
       // "Otherwise an error is returned": the compound error must carry at least one error.
       vensure!(
